@@ -19,7 +19,7 @@ use routecore::bgp::{
         Community as CommunityEnum, HumanReadableCommunity as Community,
     },
     nlri::afisafi::{AfiSafiNlri, IsPrefix},
-    path_attributes::FromAttribute,
+    path_attributes::{FromAttribute, PathAttribute},
     workshop::route::RouteWorkshop,
 };
 
@@ -412,23 +412,29 @@ impl PrefixesApi {
         let wanted_c = community.0;
         debug!("in match_community, wanted_c {:?}", &wanted_c);
 
-        if let Some(communities) = item.0.get::<Vec<CommunityEnum>>() {
-            #[allow(unused_variables)] // false positive
-            communities.iter().any(|item| {
-                //let match_res = matches!( item,
-                //    //ElementTypeValue::Primitive(TypeValue::Builtin(possible_c))
-                //    if *possible_c == wanted_c wanted_c );
-                let match_res = item == &wanted_c;
-                debug!("does {:?} match? {}", &item, match_res);
-                match_res
-            })
-        } else {
-            debug!(
-                "Ignoring community matching for {:?} with {:?}",
-                item, community
-            );
-            false
-        }
+        // The communities of a route live in up to four path attributes
+        // (there is no single attribute that `get::<Vec<Community>>()`
+        // could return), so look through all of them, the same way the
+        // serializer of `RotondaPaMap` collects them.
+        item.0.iter().flatten().any(|pa| match pa.to_owned() {
+            Ok(PathAttribute::StandardCommunities(list)) => list
+                .communities()
+                .iter()
+                .any(|c| CommunityEnum::from(*c) == wanted_c),
+            Ok(PathAttribute::ExtendedCommunities(list)) => list
+                .communities()
+                .iter()
+                .any(|c| CommunityEnum::from(*c) == wanted_c),
+            Ok(PathAttribute::LargeCommunities(list)) => list
+                .communities()
+                .iter()
+                .any(|c| CommunityEnum::from(*c) == wanted_c),
+            Ok(PathAttribute::Ipv6ExtendedCommunities(list)) => list
+                .communities()
+                .iter()
+                .any(|c| CommunityEnum::from(*c) == wanted_c),
+            _ => false,
+        })
 
         /*
 
